@@ -14,10 +14,10 @@ RULE = ("Hypothesis-generated graph cases (1-8 tasks of all kinds, any dep listi
 ASSUMPTIONS = [
     "schedules are those of the DESIGN 2.3 model: children exit at syscall boundaries of the main "
     "thread; the Python SIGCHLD handler runs immediately before or immediately after that syscall",
-    "liveness is decided as: main thread blocked in read() with no running child and no pending "
-    "signal = the run would never return",
+    "liveness is decided as: main thread blocked in read()/select() with no running child whose exit could still "
+    "interrupt it (or polling forever although no child is running) = the run would never return",
 ]
-ESSENTIAL = ["coalesced", "exit_before_reg", "foreign_exit", "exit_in_handler"]
+ESSENTIAL = ["coalesced", "exit_before_reg", "foreign_exit", "exit_in_handler", "exit_right_before_blocking_read"]
 NONTRIVIAL = ESSENTIAL + ["popen_race"]
 
 
